@@ -86,8 +86,8 @@ struct TestParser : public KeyParser {
     add_vectorised_key("vlist key", &vlist);
     add_key("enum key", &en, &envals);
     ignore_key("ignored key");
-    add_alias_key("scalar int", "old int");
-    add_alias_key("vec key", "old vec", true);
+    add_alias_key("scalar int", "old int", false);   // plain alias (alias_map)
+    add_alias_key("vec key", "old vec", true);       // deprecated alias (deprecated_alias_map)
     add_stop_key("End Test");
   }
   std::string vars_json() const {
